@@ -221,7 +221,7 @@ Definition J {A} (o : outcome A) (cmds : list qcmd) (rvs : list (option N)) : Pr
 Lemma resp_ok_step c rv cs rs cl :
   resp_ok (c :: cs) (rv :: rs) cl
   = if good1 c rv then resp_ok cs rs cl
-    else (cl =? 1) && (match cs with [] => true | _ => false end) && (match rs with [] => true | _ => false end).
+    else (cl =? 1) && resp_ok cs rs cl.
 Proof. destruct c as [q c]. reflexivity. Qed.
 
 Lemma tr_good_resp_ok cmds rvs cl : tr_good cmds rvs -> resp_ok cmds rvs cl = true.
